@@ -87,7 +87,7 @@ func mixPayload(d fitmodel.Def, pos int) []byte {
 		for e := 0; e < n; e++ {
 			var v uint64
 			switch {
-			case f.Num == 253 && pos%5 == 4:
+			case f.Num == 253 && pos%5 == 3:
 				v = uint64(0x0FFFFFF0 + pos) // a reference below the system-time marker
 			case f.Num == 253:
 				v = uint64(1000000000 + ((pos*37)%11)*50)
@@ -140,14 +140,36 @@ func mixRecord(o mixOp, i int, d fitmodel.Def) []byte {
 // mixStream builds the stream for a word; ok is false when the word uses a local type that is not defined (the
 // generator then has no layout for the record; those words are C13's and C16's subject).
 func mixStream(ops []mixOp, probe bool) (stream []byte, full []mixOp, ok bool) {
-	parts := fitmodel.FileIdRecords(0, 4)
+	return mixStreamV(ops, probe, mixVariant{})
+}
+
+// mixVariant: the twin forms of one word — every definition in the other byte order, and the three header forms
+// (14 bytes with CRC, 12 bytes, 14 bytes with the CRC left zero). Twins carry the same values, so they must decode
+// to the same content; each is also judged by the reference decoder on its own.
+type mixVariant struct {
+	Flip bool
+	Hdr  int
+}
+
+func mixStreamV(ops []mixOp, probe bool, v mixVariant) (stream []byte, full []mixOp, ok bool) {
+	fid := fitmodel.FileIdDef(0, v.Flip)
+	parts := [][]byte{fid.Bytes(), fitmodel.Data(0, []byte{4})}
 	var slots [16]*fitmodel.Def
-	fid := fitmodel.FileIdDef(0, false)
 	slots[0] = &fid
+	hdr := fitmodel.DefaultHeader
+	switch v.Hdr {
+	case 1:
+		hdr = hdr12()
+	case 2:
+		hdr = hdr14zero()
+	}
 	for i, o := range ops {
 		switch o.Kind {
 		case 0:
 			d := mixDef(o.Def, o.Local)
+			if v.Flip {
+				d.Big = !d.Big
+			}
 			slots[o.Local] = &d
 			parts = append(parts, d.Bytes())
 		case 1, 2, 3:
@@ -170,7 +192,7 @@ func mixStream(ops []mixOp, probe bool) (stream []byte, full []mixOp, ok bool) {
 			full = append(full, o)
 		}
 	}
-	return fitmodel.File(fitmodel.DefaultHeader, parts...), full, true
+	return fitmodel.File(hdr, parts...), full, true
 }
 
 var errOutsideModel = errors.New("outside the reference decoder's model")
@@ -276,13 +298,37 @@ func mixFamily(w *vx.W, maxLen int) {
 				cp := append([]mixOp{}, full...)
 				w.Violation("mix", fmt.Sprintf("word [%s]: %s", mixWordString(cp), msg), mixReplayT{Mix: true, Ops: cp, Word: mixWordString(cp), Stream: hex.EncodeToString(stream)})
 			}
+			// twins (shorter words): the other byte order for every definition, and the other two header forms
+			if probe == 1 && len(word) < maxLen {
+				base := ""
+				for _, v := range []mixVariant{{}, {Flip: true}, {Hdr: 1}, {Flip: true, Hdr: 2}} {
+					st, _, _ := mixStreamV(ops, true, v)
+					res := safeDecode(bytes.NewReader(st))
+					content := fmt.Sprintf("err=%v panic=%s %s", res.Err, res.Panic, dumpFileContent(res.File))
+					if v == (mixVariant{}) {
+						base = content
+						continue
+					}
+					w.Eval(1)
+					w.Trace(1)
+					w.Fam("mix-twins", 1)
+					msg := mixCheck(st)
+					if msg == "" && content != base {
+						msg = fmt.Sprintf("decodes differently from its twin (little/big-endian definitions, header form): %s vs %s", trunc(content, 250), trunc(base, 250))
+					}
+					if msg != "" {
+						cp := append([]mixOp{}, full...)
+						w.Violation("mix-twin", fmt.Sprintf("word [%s] with flipped byte order=%v header form %d: %s", mixWordString(cp), v.Flip, v.Hdr, msg), mixReplayT{Mix: true, Ops: cp, Word: mixWordString(cp), Stream: hex.EncodeToString(st)})
+					}
+				}
+			}
 		}
 		return true
 	})
 }
 
 func init() {
-	const t = " Shared mix family: all words up to length 3 (quick) / 4 (thorough) over {define(l, one of 13 shapes), data(l), compressed data(l) with a position-dependent time offset, compressed data(l) whose offset carries the other local type in its low nibble} for two local types — both byte orders, timestamp first / in the middle / absent, zero-field and developer-field definitions, an unknown message, unknown fields in a known message, signed, array and local-time fields, a message the file type does not host, a second file_id — each word also followed by a probe of every defined local type; the decoded File is compared message by message and field by field with a complete reference decoder (independent parser + value model + timestamp machine + reflection-derived router)."
+	const t = " Shared mix family: all words up to length 3 (quick) / 4 (thorough) over {define(l, one of 13 shapes), data(l), compressed data(l) with a position-dependent time offset, compressed data(l) whose offset carries the other local type in its low nibble} for two local types — both byte orders, timestamp first / in the middle / absent, zero-field and developer-field definitions, an unknown message, unknown fields in a known message, signed, array and local-time fields, a message the file type does not host, a second file_id — each word also followed by a probe of every defined local type; the decoded File is compared message by message and field by field with a complete reference decoder (independent parser + value model + timestamp machine + reflection-derived router). Words shorter than the bound are also decoded in their twin forms (every definition in the other byte order; 12-byte header; 14-byte header with a zero CRC): same content as the original, and each judged by the reference decoder."
 	for _, id := range []string{"C02", "C03", "C12", "C13"} {
 		vx.AppendRule(id, t)
 	}
